@@ -180,6 +180,7 @@ pub fn history(cfg: &Cfg, rep: &mut Report, fl: Fl, h: u64, steps: usize, mode: 
     let big_batches = mode == Mode::Ownership && fl.is_cons() && (h % 4 == 3);
     let mut last_touched: Vec<u32> = vec![];
     let mut seq_ids: Vec<u32> = vec![];
+    let mut large_done = 0u32;
     for step in 0..steps {
         // ---- ledger moves (approval / operator expiry lattices) ----
         if mode == Mode::Auth && rng.chance(1, 5) {
@@ -254,8 +255,11 @@ pub fn history(cfg: &Cfg, rep: &mut Report, fl: Fl, h: u64, steps: usize, mode: 
                 if rng.chance(1, 25) {
                     amount = *rng.pick(&[0u32, 32_001]);
                 }
-                if cfg.thorough() && big_batches && rng.chance(1, 10) {
-                    amount = 32_000;
+                // one near-maximal batch per big-batch history, started off a bucket boundary, so that
+                // a batch spanning 11 buckets exists; thorough adds more of them
+                if big_batches && (m.next_id > 0 && m.next_id % 3200 != 0) && (large_done == 0 || (cfg.thorough() && rng.chance(1, 10))) {
+                    amount = *rng.pick(&[28_801u32, 28_802, 30_000, 31_999, 32_000]);
+                    large_done += 1;
                 }
                 Op::Batch { to: a_, amount }
             } else if fl.explicit() {
